@@ -172,6 +172,7 @@ func (x *Exec) sentinelFacts(qname string) {
 	}
 	h := globalTerm(qname, "", SInt)
 	x.assumeTrue(Gt(h, Num(0)))
+	x.assumeTrue(Lt(App("dyntype", SInt, h), Num(0)))
 	for other := range x.sentinels {
 		x.assumeTrue(Ne(h, globalTerm(other, "", SInt)))
 	}
